@@ -2,6 +2,7 @@ package gen
 
 import (
 	"bytes"
+	"encoding/base64"
 	"encoding/json"
 	"fmt"
 	"strings"
@@ -233,7 +234,9 @@ func (w *World) mutateString(s string) []string {
 		out = append(out, w.Addr().String(), s[:len(s)-3]+"x"+"sas")
 	default:
 		if t, err := time.Parse(time.RFC3339Nano, s); err == nil && len(s) >= 20 {
-			out = append(out, t.Add(time.Nanosecond).UTC().Format(time.RFC3339Nano), t.Add(-time.Second).UTC().Format(time.RFC3339Nano))
+			// the repository defines times at millisecond precision (util.NormalizeTime in localtime.Time.Bytes):
+			// the smallest change of a signed time is 1ms
+			out = append(out, t.Add(time.Millisecond).UTC().Format(time.RFC3339Nano), t.Add(-time.Second).UTC().Format(time.RFC3339Nano))
 			break
 		}
 		switch {
@@ -257,8 +260,18 @@ func (w *World) leafMutations(u Unit, v any, rel Path, skipHint bool) []Mutation
 	switch x := v.(type) {
 	case map[string]any:
 		for _, k := range sortedKeys(x) {
-			if k == "_hint" && skipHint {
+			if k == "_hint" {
+				// kinds are changed by the explicit hint-swap mutation; version strings of nested values are not content
 				continue
+			}
+			if tk, ok := x[k].(string); ok && (k == "token") {
+				if raw, err := base64.StdEncoding.DecodeString(tk); err == nil && len(raw) > 0 {
+					raw2 := append([]byte{}, raw...)
+					raw2[w.R.Intn(len(raw2))] ^= 0x01
+					ms = append(ms, Mutation{Unit: u, Rel: rel.with(k), Op: "value", New: base64.StdEncoding.EncodeToString(raw2)})
+					ms = append(ms, Mutation{Unit: u, Rel: rel.with(k), Op: "value", New: base64.StdEncoding.EncodeToString(append(raw2, 0x7))})
+					continue
+				}
 			}
 			ms = append(ms, w.leafMutations(u, x[k], rel.with(k), false)...)
 		}
@@ -378,7 +391,7 @@ func (w *World) UnitMutations(root any, u Unit, hints []string, donors []any) []
 			}
 			ms = append(ms, Mutation{Unit: u, Rel: sp, Op: "swap-other:sign", New: dsign})
 			for _, f := range signFields {
-				if v, ok := dsign[f]; ok && string(RenderJSON(v)) != string(RenderJSON(s[f])) {
+				if v, ok := dsign[f]; ok && !sameValue(v, s[f]) {
 					ms = append(ms, Mutation{Unit: u, Rel: sp.with(f), Op: "swap-other:" + f, New: v})
 				}
 			}
@@ -408,7 +421,7 @@ func (w *World) UnitMutations(root any, u Unit, hints []string, donors []any) []
 				continue
 			}
 			for _, f := range signFields {
-				if v, ok := dm[f]; ok && string(RenderJSON(v)) != string(RenderJSON(uv[f])) {
+				if v, ok := dm[f]; ok && !sameValue(v, uv[f]) {
 					ms = append(ms, Mutation{Unit: u, Rel: Path{f}, Op: "swap-other:" + f, New: v})
 				}
 			}
@@ -424,4 +437,18 @@ func (w *World) UnitMutations(root any, u Unit, hints []string, donors []any) []
 func (m Mutation) Apply(root any) any {
 	full := append(append(Path{}, m.Unit.At...), m.Rel...)
 	return Set(root, full, m.New)
+}
+
+// sameValue: equal JSON values; times compared at the repository's millisecond precision.
+func sameValue(a, b any) bool {
+	as, ok1 := a.(string)
+	bs, ok2 := b.(string)
+	if ok1 && ok2 {
+		ta, e1 := time.Parse(time.RFC3339Nano, as)
+		tb, e2 := time.Parse(time.RFC3339Nano, bs)
+		if e1 == nil && e2 == nil {
+			return ta.Truncate(time.Millisecond).Equal(tb.Truncate(time.Millisecond))
+		}
+	}
+	return string(RenderJSON(a)) == string(RenderJSON(b))
 }
